@@ -216,6 +216,18 @@ def check_base(name, values, ctx):
                 ctx.violation('%s2DEC:padded' % name, {
                     'case': case, 'text': padded, 'observed': xl.show(b2),
                     'accepted': [repr(float(n))]})
+        # the numeral given as a number (what VALUE("101") or a calculation
+        # hands on): python int, float and numpy float
+        if n >= 0 and ref.isdigit() and len(ref) <= 10:
+            import numpy as np
+            for form, v in (('int', int(ref)), ('float', float(ref)),
+                            ('numpy', np.float64(ref))):
+                b3 = xl.canon(xl.scalar(x2d(v)))
+                ctx.count('cmp.%s2DEC.numeric-numeral' % name)
+                if b3 != xl.c_num(n):
+                    ctx.violation('%s2DEC:numeral-as-%s' % (name, form), {
+                        'case': case, 'numeral': repr(v), 'observed': xl.show(b3),
+                        'accepted': [repr(float(n))]})
         # places argument
         if n >= 0:
             w = xl.canon(xl.scalar(d2x(n, 10)))
